@@ -682,6 +682,7 @@ def normalise_module(modname: str, tree: ast.Module, source: str = "") -> dict:
                     inl = inline_new_locals(fn, r["locals"])
                     if inl and shape(fn) == r["shape"]:
                         entry["inlined"] = inl
+                        try_rename()
                     elif inl:
                         fn.body[:] = saved
             if "inlined" not in entry and r.get("stmts"):
@@ -693,6 +694,17 @@ def normalise_module(modname: str, tree: ast.Module, source: str = "") -> dict:
                 inl = inline_new_locals(fn, r["locals"], r["stmts"])
                 if inl:
                     entry["inlined_partial"] = inl
+                # inlining may have brought more statements into reference form: names that now align are mapped back,
+                # which in turn may make further hoists recognisable
+                for _ in range(3):
+                    pm = partial_rename(fn, r["stmts"], r["locals"])
+                    inl = inline_new_locals(fn, r["locals"], r["stmts"])
+                    if pm:
+                        entry.setdefault("renamed_partial", {}).update(pm)
+                    if inl:
+                        entry.setdefault("inlined_partial", []).extend(inl)
+                    if not pm and not inl:
+                        break
         if entry:
             log[q] = entry
     return log
